@@ -126,3 +126,12 @@ _stub("C19", "Decides structural clauses of C19: the path looked up for reuse is
              "(disabled, no donor, no affine, overflow); reuse is disabled only by a negative tolerance. Does NOT decide that picosvg's "
              "normalisation identifies all isometric copies.",
       "completeness of picosvg's congruence detection")
+
+_stub("C13", "Decides structural clauses of C13: coordinate-space typing of colr_to_svg.py (outlines through font -> viewBox; the running "
+             "paint transform composes inner-first; setting an element's transform resets the running transform; gradient coordinates "
+             "end in the element's user space, radial ones through the circle-preserving frame plus gradientTransform); the dispatch "
+             "over ot_paint.Format is exhaustive (every PaintFormat member is handled, routed to a class with its own gettransform, or "
+             "raises) and unsupported composites warn; Paint.from_ot's reflection contract holds against otData for every non-variable "
+             "transform format incl. the (xx,yx,xy,yy,dx,dy) converter order; colour mapping (0xFFFF -> currentColor, palette index only "
+             "for multi-palette fonts, alpha product) and COLRv0 layer order. Does NOT decide picture equality or curve conversion.",
+      "rendered-picture equality; SVGPathPen quadratic/cubic conversion; angle conventions of rotate/skew in picosvg")
